@@ -610,7 +610,9 @@ class RG:
         T = lambda s, dd=1: self.tensor(s, depth - dd, dlev, smooth)  # noqa: E731
         S = lambda dd=1: self.scalar(depth - dd, dlev, smooth)  # noqa: E731
         opts = [("leaf", 4), ("add", 6), ("sub", 3), ("smul", 6), ("tmul", 3), ("tdiv", 3), ("neg", 2), ("cplx", 4 if self.cplx else 1),
-                ("abs", 1 if kinks else 0), ("stack", 8), ("ct", 8), ("slice", 5), ("conditional", 3 if kinks else 0), ("variable", 2), ("restrict", 2), ("rowcombo", 3)]
+                ("abs", 1 if kinks else 0), ("stack", 8), ("ct", 8), ("slice", 5), ("conditional", 3 if kinks else 0), ("variable", 2), ("restrict", 2), ("rowcombo", 3 if rank <= 2 else 0)]
+        if rank > 3:
+            return self.tensor_leaf(sh, dlev)
         dv = self.deriv and dlev < 2
         if rank == 1:
             n = sh[0]
